@@ -25,6 +25,7 @@ namespace pl
     struct Reg
     {
         std::map<const void*, int> live;   // address -> tag
+        std::map<const void*, const void*> cell_at;   // address -> heap cell of the object constructed there (address sensitivity)
         std::vector<std::string> errors;
         long long constructed = 0, destroyed = 0;
         int countdown = 0;   // 0 = no fault pending
@@ -33,7 +34,7 @@ namespace pl
         static Reg& get() { static Reg r; return r; }
         void reset()
         {
-            live.clear(); errors.clear(); constructed = destroyed = 0; countdown = 0; points = 0; armed = false;
+            live.clear(); cell_at.clear(); errors.clear(); constructed = destroyed = 0; countdown = 0; points = 0; armed = false;
         }
         void err(const std::string& s) { if (errors.size() < 8) errors.push_back(s); }
     };
@@ -66,6 +67,7 @@ namespace pl
             Reg& r = Reg::get();
             if (r.live.count(this)) r.err("object constructed on an address that already holds a live object (" + std::to_string(TAG) + ")");
             r.live[this] = TAG;
+            r.cell_at[this] = cell;
             ++r.constructed;
         }
         static void use(const Tracked* p, const char* what)
@@ -74,6 +76,7 @@ namespace pl
             auto it = r.live.find(p);
             if (it == r.live.end()) r.err(std::string(what) + " of an object that is not alive (never constructed or already destroyed), type tag " + std::to_string(TAG));
             else if (it->second != TAG) r.err(std::string(what) + " of an object of a different type");
+            else if (r.cell_at[p] != p->cell) r.err(std::string(what) + " of an object whose representation was not put at this address by one of its constructors (bytes relocated or exchanged without move construction), type tag " + std::to_string(TAG));
         }
 
         explicit Tracked(int v) : cell(new Cell{v, false}) { born(); }
@@ -113,7 +116,12 @@ namespace pl
             Reg& r = Reg::get();
             auto it = r.live.find(this);
             if (it == r.live.end()) r.err("destructor run on an object that is not alive (double destruction or never constructed), type tag " + std::to_string(TAG));
-            else r.live.erase(it);
+            else
+            {
+                if (r.cell_at[this] != cell) r.err("destructor run on an object whose representation was not put at this address by one of its constructors (bytes relocated or exchanged without move construction), type tag " + std::to_string(TAG));
+                r.live.erase(it);
+                r.cell_at.erase(this);
+            }
             ++r.destroyed;
             delete cell;
             cell = nullptr;
